@@ -8,4 +8,10 @@ CLAIMS = {
  "C15": dict(text="Theorems that the size arithmetic of the type constructors (wrapping uint64 model) equals the spec's bounds and that encodings lie within them; correspondence on thousands of generated types", note=BASE_NOTE),
  "C16": dict(text="36 theorems for all 64-bit inputs (bit index/length/cover depth, every Gindex64 method, bit iterator, ToGindex64, byte encodings) about a machine-integer model tied to tree/bitlen.go and tree/gindex.go by exhaustive+random differential runs", note=BASE_NOTE),
 }
+CLAIMS.update({
+ "C08": dict(text="25 theorems: the model of the streaming Merkleize loop and of every typed flat HTR helper equals the SSZ-spec root for every pair hash and every count <= limit < 2^64; model tied to tree/merkle.go, tree/hashing.go by exhaustive (count, limit <= 70) and boundary differential runs under two hash functions", note=BASE_NOTE),
+ "C18": dict(text="28 theorems for all byte strings and 64-bit limits (validity checks accept exactly the spec packings; length/get/set/ones/zero/covers equal the bit-sequence answers) about a machine-integer model tied to package bitfields by exhaustive short-string and random differential runs", note=BASE_NOTE),
+ "C04": dict(text="Model of every typed mutator and of hook propagation (object machine) run against a plain value machine on random and exhaustive short histories; theorems under construction (see evidence obligations)", note=BASE_NOTE),
+ "C17": dict(text="Explicit state-machine models of the stack-based and index-based iterators tied to the code on boundary lengths and large-limit subtrees; theorems: see evidence", note=BASE_NOTE),
+})
 NOT_APPLICABLE = {}
